@@ -464,6 +464,8 @@ def run_model(model, tokens, rt):
         text = ' ' + ' '.join(tokens) + ' '
         return (1 if any((' ' + sh + ' ') in text for sh in model[1]) else 0,
                 '', '')
+    if kind == 're':
+        return (1 if re.search(model[1], ' '.join(tokens)) else 0, '', '')
     if kind == 'and':
         rs = [run_model(m, tokens, rt) for m in model[1:]]
         return (1 if all(r[0] for r in rs) else 0, '', '')
